@@ -266,17 +266,21 @@ class C07(verif.Spec):
     harness = "demux_harness"
     harness_link_lib = True
     timeout_per_case = 6.0
-    partial_note = ("PES path: wrap window, start code scan, split invariance of the stream machine, safety and "
-                    "state forgetting are proved for the model; TS path (demux_ts_packet) is modelled and tied by "
-                    "correspondence + oracle only. Frames 'as sent' after damage is judged by the oracle, the Lean "
-                    "statement proved is the forgetting of stale state after a discard.")
+    partial_note = ("PES path: wrap window, start code scan, refinement to a buffer-free stream machine (hence split "
+                    "invariance for every partition), safety, forgetting of stale state at a frame start, recovery "
+                    "after the overflow packet are proved for the model (for the repaired and the unrepaired shape of "
+                    "the two fixed statements alike; the two old defects are proved counterexamples for the unrepaired "
+                    "shape). TS path: invariant, safety/progress and split invariance proved in full. Coroutine "
+                    "interface: progress (no livelock) proved for every context; equality of its frames with feed's "
+                    "(cor_equals_feed_full) and frames 'as sent' after damage (resync_full, needs the Mux sender spec) "
+                    "are open statements judged by the oracle.")
     assumptions = ["the frame callback returns TRUE", "coroutine callers pass max_lines >= 64",
                    "feed buffers are shorter than 2^32 bytes (unsigned int arithmetic does not wrap)",
                    "all bytes are < 256 (the model is over Nat lists)"]
     trusted_base = ["harness/demux_harness.c + lean/Driver/Demux.lean (op-by-op correspondence incl. resume state)",
                     "lib/demux_util.py: my transcription of EN 300 472 / EN 301 775 / ISO 13818-1 sender side",
                     "constants PES_BUF_SIZE etc. hard-coded in the model, cross-checked by the `consts` op every run"]
-    open_statements = ["ts_feed_split_invariant_full", "cor_equals_feed_full", "resync_full"]
+    open_statements = ["cor_equals_feed_full", "resync_full", "mux_demux_roundtrip_model_full"]
 
     # ---------------------------------------------------------------- generation
     def variants(self, rng, st, heavy):
